@@ -1207,8 +1207,34 @@ class EX(ExchangeInstruction):
 # uses counter
 class EXL(ExchangeInstruction):
     def lift(self, il: LowLevelILFunction, addr: int) -> None:
+        first, second = self.operands()
+        assert isinstance(first, IMem8), f"Expected IMem8, got {type(first)}"
+        assert isinstance(second, IMem8), f"Expected IMem8, got {type(second)}"
+        dst_mode, src_mode = self._addressing_modes()
+
+        # Walk both internal-memory operands with temp pointers so that each
+        # iteration exchanges the next pair of bytes (m++) <-> (n++).
+        ptr1 = TempReg(TempMvlDst)
+        ptr1.lift_assign(il, first.lift_current_addr(il, pre=dst_mode))
+        ptr2 = TempReg(TempMvlSrc)
+        ptr2.lift_assign(il, second.lift_current_addr(il, pre=src_mode))
+
         with lift_loop(il):
-            self.lift_single_exchange(il, addr)
+            mem1 = IMemHelper(1, ptr1)
+            mem2 = IMemHelper(1, ptr2)
+            tmp = TempReg(TempExchange, width=1)
+            tmp.lift_assign(il, mem1.lift(il, pre=AddressingMode.N))
+            mem1.lift_assign(
+                il, mem2.lift(il, pre=AddressingMode.N), pre=AddressingMode.N
+            )
+            mem2.lift_assign(il, tmp.lift(il), pre=AddressingMode.N)
+            for ptr in (ptr1, ptr2):
+                # advance within the 256-byte internal memory
+                offset = il.sub(3, ptr.lift(il), il.const(3, INTERNAL_MEMORY_START - 1))
+                wrapped = il.and_expr(3, offset, il.const(3, 0xFF))
+                ptr.lift_assign(
+                    il, il.add(3, il.const(3, INTERNAL_MEMORY_START), wrapped)
+                )
 
 
 class MiscInstruction(Instruction):
